@@ -307,6 +307,14 @@ DeepCopy(h, v) ==
         newObjs == [i \in 1..n |-> RemapObj(h[addrs[i]], mp)]
     IN [h |-> h \o newObjs, v |-> Remap(v, mp)]
 
+\* copy.deepcopy fails (TypeError) on some host objects - locks, generators, open files, views: the projection marks them
+\* nocopy; a store of a value that contains one (at any depth) fails before anything is stored
+IsNoCopy(x) == x.t = "opaque" /\ "nocopy" \in DOMAIN x /\ x.nocopy
+RECURSIVE NoCopyV(_)
+NoCopyV(v) == IsNoCopy(v) \/ (v.t = "tuple" /\ \E i \in 1..Len(v.items) : NoCopyV(v.items[i]))
+ObjValues(o) == IF o.t = "list" THEN {o.items[i] : i \in 1..Len(o.items)} ELSE {o.items[i][2] : i \in 1..Len(o.items)}
+HasNoCopy(h, v) == NoCopyV(v) \/ \E a \in Reach(h, v) : \E x \in ObjValues(h[a]) : NoCopyV(x)
+
 \* a value contains something the specification cannot follow
 RECURSIVE HasOpaque(_, _, _)
 HasOpaque(h, v, fuel) ==
